@@ -175,6 +175,15 @@ add("C17", "gen", "exploration",
     "Trusts the Go toolchain and reflect.DeepEqual; pointer/func/chan fields, containers of non-scalars, defined slice types and struct-typed generic arguments are outside the domain.",
     "DESIGN.md section 3, C17")
 
+add("C18", "gen", "exploration",
+    "property-based testing (rapid): generated origin structs and omit/replace tag combinations through the real partialstruct generator, output compiled and inspected with reflect by go test; enumerated negative declarations",
+    "Generated modules (origin structs with scalar/slice/map/array/pointer/foreign/error/interface/nested-origin fields and hostile backquote-free tags; declaring "
+    "package with `type x origin.T`, omit and replace tags, grouped and ungrouped) are processed by the real generator; a harness-written test compares reflect.TypeOf(X) "
+    "with the origin (fields minus omitted, order, type identity, tags, replacements), checks DeepCopyAs(nil) == nil and, for a reflect-filled source, equality of "
+    "every retained field and zero for every omitted one. Eleven declarations that are not structs defined from a named type must fail without writing a file.",
+    "Trusts the Go toolchain and reflect; embedded origin fields and tags with backquotes are outside the domain.",
+    "DESIGN.md section 3, C18")
+
 ALL = ["C%02d" % i for i in range(1, 21)]
 
 def main():
